@@ -24,6 +24,10 @@ FORBIDDEN = re.compile(r"\bsorry\b|\badmit\b|^axiom |native_decide|bv_decide|imp
 if REPO not in sys.path:
     sys.path.insert(0, REPO)
 
+import logging  # noqa: E402
+logging.lastResort = None                       # netconan logs through the root logger; keep the checks' output clean
+logging.getLogger().addHandler(logging.NullHandler())
+
 
 class Infra(Exception):
     """Infrastructure trouble (exit code 2), never a violation."""
@@ -133,6 +137,14 @@ class Driver:
             raise Infra("model driver not built: " + DRIVER)
 
     def run(self, lines, timeout=3000):
+        rw = os.path.join(LEAN, "Netconan", "Generated", "reserved_words.txt")
+        pre = ["loadreserved " + rw] if os.path.exists(rw) and any(l.startswith("fanew") for l in lines) else []
+        if pre:
+            out = self.run_raw(pre + list(lines), timeout)
+            return out[1:]
+        return self.run_raw(lines, timeout)
+
+    def run_raw(self, lines, timeout=3000):
         data = "\n".join(lines) + "\n"
         p = subprocess.run([DRIVER], input=data, capture_output=True, text=True, timeout=timeout)
         if p.returncode != 0:
